@@ -23,6 +23,8 @@ def term(t):
     return str(t[1]) if t[1] >= 0 else '(%d)' % t[1]
   if t[0] == 'v':
     return t[1]
+  if t[0] == 'b':
+    return '(%s %s %s)' % (term(t[1]), t[2], term(t[3]))
   return '(%s %s %d)' % (t[1], t[2], t[3])
 
 
@@ -281,7 +283,7 @@ def gen_recursive(r, depth=None):
   """One recursive program around a depth; returns (program, family)."""
   d = depth if depth is not None else r.choice(DEPTHS)
   family = r.choice(['counter', 'reach', 'tc', 'cycle2', 'cycle3', 'sp', 'random', 'random',
-                     'bagpaths', 'helper', 'ring', 'ring'])
+                     'bagpaths', 'helper', 'ring', 'ring', 'spw', 'countpaths'])
   around = max(1, d + r.choice([-2, -1, 0, 0, 1, 1, 2, 3]))
   preds = []
   main = None
@@ -350,6 +352,25 @@ def gen_recursive(r, depth=None):
         rule([C(0)], aggval=C(0)),
         rule([V('y')], [['D', [V('x')], 'd'], ['E', [V('x'), V('y')], None]], aggval=['e', 'd', '+', 1])]})
     main = 'D'
+  elif family == 'spw':
+    # weighted shortest paths: recursion through Min= with a value built from two variables
+    n = around
+    rows = [[a, b, r.choice([1, 1, 2, 3])] for a, b in chain(r, n, noise=r.randint(0, 4))]
+    preds.append({'name': 'E', 'arity': 3, 'kind': 'edb', 'rows': rows, 'rules': []})
+    preds.append({'name': 'D', 'arity': 1, 'kind': 'agg', 'op': 'Min=', 'rules': [
+        rule([C(0)], aggval=C(0)),
+        rule([V('y')], [['D', [V('x')], 'd'], ['E', [V('x'), V('y'), V('w')], None]],
+             aggval=['b', V('d'), '+', V('w')])]})
+    main = 'D'
+  elif family == 'countpaths':
+    # recursion through += : number of walks of bounded length from node 0
+    n = min(around, 9)
+    rows = chain(r, n) + [[i, i + 2] for i in range(0, n - 1, 3)]
+    preds.append({'name': 'E', 'arity': 2, 'kind': 'edb', 'rows': rows, 'rules': []})
+    preds.append({'name': 'W', 'arity': 1, 'kind': 'agg', 'op': '+=', 'rules': [
+        rule([C(0)], aggval=C(1)),
+        rule([V('y')], [['W', [V('x')], 'm'], ['E', [V('x'), V('y')], None]], aggval=V('m'))]})
+    main = 'W'
   elif family == 'bagpaths':
     # non-distinct recursion: multiplicities count derivations
     n = min(around, 6)
